@@ -2141,7 +2141,7 @@ func (m *Machine) processQueue() Result {
 			// TODO test case
 			args := ParseArgs[ACheck](mut.Args)
 			if args.CheckDone != nil {
-				args.Canceled = t.IsAccepted.Load()
+				args.Canceled = !t.IsAccepted.Load()
 				closeSafe(args.CheckDone)
 			}
 		} else if t.IsAccepted.Load() && !t.Mutation.IsCheck {
